@@ -25,6 +25,9 @@ _MORE = {
  "C10": ("seq", "breadth-first search over all histories up to a depth of timer records (int64 extremes), passes, stopwatch start/advance/stop on an injected clock, instrumented calls and Close of the subscope, on the plain, cached and reporter-less paths; after every step the reporter log / snapshot is compared with the reference model", "alphabet and depth bound; state key includes a capped record count so that periodic misbehaviour up to period 3 is not merged away"),
  "C11": ("seq+sched", "breadth-first search over all histories up to a depth on a test scope (4 derived scopes x 9 metric operations + Close), a snapshot after every step compared with a four-map reference model, every earlier snapshot vandalised and re-checked for independence; snapshots concurrent with recording are explored under the controlled scheduler", "alphabet and depth bound"),
  "C20": ("seq+sched", "the full product of constructor arguments (dyadic values) is compared with the recurrence; every creation sequence up to a depth over an alphabet of specifications that collide in the bucket cache (permutations, equal bit-pattern sums, cross-kind collisions) is followed by the C03 sample sweep per histogram; concurrent creation of colliding specs is explored under the controlled scheduler", "alphabet and depth bound"),
+ "C17": ("seq", "breadth-first search over all record/pass histories up to a depth on a real root scope with the Prometheus reporter (fresh registry per history, both timer flavours), Gather() compared with a reference tally after every pass; every sequence of up to 3 first uses of one name across the 5 metric kinds and 3 tag-key sets, with panicking and non-panicking error callbacks", "alphabet and depth bound; Prometheus client internals are exercised, not modelled"),
+ "C18": ("seq", "the full product of names x values (one per varint length class and sign, gauge truncation edge cases, duration extremes) x sample rates, and of all bucket specifications up to length L x precisions 1..12, directly and through a root scope, is executed against a recording statsd client and compared with a reference rendering; plus all bucket-call histories up to a depth on one reporter", "alphabet bound"),
+ "C19": ("seq", "every call history up to a depth over both reporter flavours for every child count 0..5 is executed against recording children sharing one ordered log and compared call by call with the reference fan-out; all 1365 capability assignments are enumerated", "argument alphabets of two values per call"),
 }
 CHECKS.update(_MORE)
 
